@@ -68,11 +68,11 @@ def main():
                   "baseline_off_cmd": "cd /repo && cargo nextest run --workspace --no-fail-fast --test-threads 8 --offline",
                   "source_commits": [], "add_only": True},
         "engines": [
-            {"name": "mirfacts", "path": "driver/", "serves_properties": sorted(CHECKS), "kind_free_text": "rustc_private driver exporting resolved MIR / ADT / impl / macro facts per target (8 targets via miri-built sysroots)"},
+            {"name": "mirfacts", "path": "driver/", "serves_properties": sorted(CHECKS), "kind_free_text": "rustc_private driver exporting resolved MIR / ADT / impl / macro facts per target (8 targets via miri-built sysroots; the host triple also as `@release`: debug assertions and overflow checks off)"},
             {"name": "analysis", "path": "analysis/", "serves_properties": sorted(CHECKS), "kind_free_text": "python: abstract interpreter over MIR (trace partitioning, bit provenance), CFG/dominators, ISA decode tables, bounds prover, per-property rules"},
         ],
         "checks": checks,
-        "notes": "Static analysis only (see DESIGN.md). Genuine defects found and repaired are listed in known_findings.json (status fixed); open findings are reported as KNOWN-FINDING lines.",
+        "notes": "Static analysis only (see DESIGN.md). Every check analyses the host triple in two profiles (dev and `@release`), most of them further targets; the macro checks C06-C09 compile their generated harness in both profiles. Genuine defects found and repaired are listed in known_findings.json (status fixed); open findings are reported as KNOWN-FINDING lines.",
         "not_applicable": [{"property_id": p, "reason": r} for p, r in sorted(NOT_YET.items()) if p not in CHECKS],
     }
     json.dump(m, open(os.path.join(HERE, "MANIFEST.json"), "w"), indent=1)
